@@ -1,6 +1,7 @@
 import JobShopProofs.Properties.C16
 import JobShopProofs.EdgeType
 import JobShopProofs.GraphEdges
+import JobShopProofs.SolvedEdges
 /-!
 # C16 — all theorems (the edge-type theorem lives in `EdgeType.lean`, which needs the graph invariant of C17)
 -/
